@@ -123,10 +123,8 @@ func raceStage(dir string, in *Input, sizes map[int]int64, pin, sharedRepo bool)
 		if _, dup := w.manByDig[r.man.Digest]; dup {
 			return nil, ListObs{}, fmt.Errorf("two concurrent pushes produced the same manifest digest")
 		}
-		if r.blob.Digest != w.blobDig(o.Blob) || r.blob.Size != o.Bsize {
-			return nil, ListObs{}, fmt.Errorf("concurrent PushSignature returned a wrong blob descriptor")
-		}
-		oks[k] = true
+		// a push that hands back a descriptor of something else than was pushed counts as not accepted
+		oks[k] = r.blob.Digest == w.blobDig(o.Blob) && r.blob.Size == o.Bsize && r.blob.MediaType == o.Mt
 		o.Msize = r.man.Size
 		w.manByDig[r.man.Digest] = o.Id
 		w.manDigest[o.Id] = r.man.Digest
